@@ -9,7 +9,7 @@
    and every key sequence (all multisets of <= 2 / 3 keys of a 25-key catalogue in every order).
    The harness builds the real imap.SearchCriteria values and calls the real And, resp. sends the
    real `SEARCH ...` line to an imapserver connection whose stub Session records the criteria it
-   receives, and RECORDS the resulting struct field by field.  The harness has no matcher.
+   receives, and RECORDS the resulting struct field by field.  The harness has no matcher (it only checks that And leaves its operands alone and that a result is not aliased).
 3. SearchAlgTrace (TLC) judges every record: Match(result, m) against Match(a,m) /\\ Match(b,m),
    resp. against the conjunction of the keys' meanings, for every message of the universe.
 4. The same for random criteria trees (depth <= 3, larger values, times of day) and random key
@@ -43,6 +43,7 @@ def run(ctx):
     lap("go_build")
     rec = os.path.join(ctx.scratch, "searchalg-enum.ndjson")
     recs, _, _ = ctx.harness(binp, ["gen", g.out_path, rec], timeout=900)
+    ctx.take_mismatches(recs)      # (operand modified / result aliased: what the harness itself looks at)
     s = ctx.summary(recs)
     if s["records"] != ncases or ncases == 0:
         raise vlib.Infra("generator printed %d cases, harness recorded %d" % (ncases, s["records"]))
@@ -50,6 +51,7 @@ def run(ctx):
     rnd = os.path.join(ctx.scratch, "searchalg-random.ndjson")
     npairs, ncmds = (400, 400) if quick else (4000, 4000)
     recs, _, _ = ctx.harness(binp, ["random", rnd, "-seed", ctx.seed, "-pairs", npairs, "-cmds", ncmds], timeout=900)
+    ctx.take_mismatches(recs)
     s2 = ctx.summary(recs)
     lap("real_code")
     # 4. impl -> spec: TLC judges every record (enumerated and random in one run)
